@@ -205,6 +205,11 @@ class Obs:
                         out.raised("overstatement_assorter", e)
                         continue
                     out.units["pairs_scored"] += 1
+                    flagged = (not c.phantom) and bool(run.case["mvr"].get(c.id, {}).get("phantom"))
+                    if flagged and not close(b, bp):
+                        out.violate("C08.e", f"{run.world['contests'][cid]['choice_function']}/style={style}/unfindable-card-not-scored-as-phantom",
+                                    f"card {c.id} could not be found (the auditors' record is flagged {m.phantom!r}); it is scored {b!r} "
+                                    f"for {cid}/{key}, a phantom record scores {bp!r}")
                     if bp > b + 1e-12:
                         out.violate("C08.e", f"{run.world['contests'][cid]['choice_function']}/style={style}",
                                     f"replacing the manual record of {c.id} by a phantom raises the overstatement assorter of "
@@ -261,6 +266,14 @@ class Obs:
         if run.polling:
             return
         self.score_every_phantom(run)
+        if run.use_style and run.world["audit_type"] == W.ONEAUDIT:
+            # the ONEAudit step adds contests to pooled CVRs and check_cards(force=True) lifts the bounds accordingly:
+            # still one record per possible card
+            for cid, con in run.contests.items():
+                listing = sum(1 for c in run.cvr_list if c.has_contest(cid))
+                if listing != con.cards:
+                    out.violate("C08.a", "style/after-pooling", f"after the pooling step {listing} records list {cid} but its card "
+                                                                f"bound is {con.cards}")
         # C08.f pooled phantoms contribute 1/2 to their pool's mean
         if run.world["audit_type"] != W.ONEAUDIT:
             return
